@@ -26,7 +26,42 @@ const brokerWait = 5 * time.Second
 
 type verifAuth struct{}
 
+// slowGate: while an `hsrace` event is in progress, Authenticate calls for a user name beginning
+// with "slow" report that they have been entered and then block until the event releases them
+// (or brokerWait has passed): a connection held in the middle of its handshake.
+type slowGate struct {
+	entered chan struct{}
+	release chan struct{}
+}
+
+var (
+	slowMu  sync.Mutex
+	curGate *slowGate
+)
+
+func setGate(g *slowGate) {
+	slowMu.Lock()
+	curGate = g
+	slowMu.Unlock()
+}
+
 func (verifAuth) Authenticate(id string, cred interface{}) error {
+	if strings.HasPrefix(id, "slow") {
+		slowMu.Lock()
+		g := curGate
+		slowMu.Unlock()
+		if g != nil {
+			select {
+			case g.entered <- struct{}{}:
+			default:
+			}
+			select {
+			case <-g.release:
+			case <-time.After(brokerWait):
+			}
+		}
+		return nil
+	}
 	if id == "deny" {
 		return auth.ErrAuthFailure
 	}
@@ -58,21 +93,21 @@ func brokerInit() {
 }
 
 type rawClient struct {
-	id       int
-	conn     net.Conn
-	stopped  chan struct{}
-	mu       sync.Mutex
-	cond     *sync.Cond
-	items    []string
-	pongs    int // PINGRESPs seen in total
-	pings    int // PINGREQs written in total (event packets and barriers)
+	id         int
+	conn       net.Conn
+	stopped    chan struct{}
+	mu         sync.Mutex
+	cond       *sync.Cond
+	items      []string
+	pongs      int // PINGRESPs seen in total
+	pings      int // PINGREQs written in total (event packets and barriers)
 	eventPings int // PINGREQ events since the last collect
-	eof      bool
-	bad      string
-	accepted bool
-	dead     bool // reported CLOSED already
-	paused   bool // the reader goroutine stops draining the connection (a client that has stopped reading)
-	pend     []byte // bytes of an incomplete packet written so far (`raw` events): the client is mid-packet
+	eof        bool
+	bad        string
+	accepted   bool
+	dead       bool   // reported CLOSED already
+	paused     bool   // the reader goroutine stops draining the connection (a client that has stopped reading)
+	pend       []byte // bytes of an incomplete packet written so far (`raw` events): the client is mid-packet
 }
 
 // mid: an incomplete packet is pending on the connection, so no PINGREQ barrier can be put on it;
@@ -177,12 +212,13 @@ type brokerCore struct {
 	rawConn     int  // connection of the current rawfirst/raw/close event (-1: none)
 	keepConnack bool // rawfirst: the CONNACK answering the first packet is kept in front of CLOSED
 	ring        int  // size of a connection's ring buffers
-	pipelined []byte
-	svr     *service.Server
-	clients map[int]*rawClient
-	cbs     map[int]*service.OnPublishFunc
-	cbmu    sync.Mutex
-	cblog   map[int][]string
+	pipelined   []byte
+	svr         *service.Server
+	clients     map[int]*rawClient
+	cbs         map[int]*service.OnPublishFunc
+	cbmu        sync.Mutex
+	cblog       map[int][]string
+	repub       map[int][]byte // republishing callbacks (`srvsubrepub`): callback -> the topic it republishes to
 }
 
 func init() {
@@ -208,6 +244,7 @@ func (b *brokerCore) reset() {
 	b.clients = map[int]*rawClient{}
 	b.cbs = map[int]*service.OnPublishFunc{}
 	b.cblog = map[int][]string{}
+	b.repub = map[int][]byte{}
 	message.VerifResetPacketID(0)
 	if b.ring == 0 {
 		vb, err := service.VerifNewBuffer(0) // the default size, which Server.BufferSize = 0 selects
@@ -474,7 +511,17 @@ func (b *brokerCore) cb(id int) *service.OnPublishFunc {
 			id: 0 /* depends on fan-out order */, payload: append([]byte{}, m.Payload()...)}
 		b.cbmu.Lock()
 		b.cblog[id] = append(b.cblog[id], p.String())
+		target, re := b.repub[id]
 		b.cbmu.Unlock()
+		if re {
+			// a republishing callback (`srvsubrepub`): hands the message on through Server.Publish from
+			// inside the callback, i.e. in the middle of the fan-out that called it (a bridge)
+			nm := message.NewPublishMessage()
+			nm.SetTopic(target)
+			nm.SetQoS(0)
+			nm.SetPayload(p.payload)
+			b.svr.Publish(nm)
+		}
 		return nil
 	}
 	b.cbs[id] = &f
@@ -505,19 +552,7 @@ func (b *brokerCore) handle(ws []string) string {
 		var bytes []byte
 		switch ws[2] {
 		case "connect":
-			c := wConnect{protoName: unhex(ws[3]), version: atoi(ws[4]), reserved: ws[5] == "1", clean: ws[6] == "1",
-				willQosNoWill: atoi(ws[8]), willRetainNoWill: ws[9] == "1", clientID: unhex(ws[10]),
-				user: parseOptBytes(ws[11]), pass: parseOptBytes(ws[12]), keepAlive: atoi(ws[13])}
-			if ws[7] != "~" {
-				f := strings.Split(ws[7], ":")
-				c.will = &wWill{topic: unhex(f[0]), payload: unhex(f[1]), qos: atoi(f[2]), retain: f[3] == "1"}
-			}
-			authOK := ws[14] == "1"
-			if !authOK {
-				u := []byte("deny")
-				c.user = &u
-			}
-			bytes = c.encode()
+			bytes = connectFieldsBytes(ws[3:15])
 		case "other":
 			switch atoi(ws[3]) {
 			case 3:
@@ -671,6 +706,10 @@ func (b *brokerCore) handle(ws []string) string {
 		c.conn.Close()
 		c.waitUntil(func() bool { return c.eof }, brokerWait)
 		return b.collect(id, false, nil)
+	case "unsubrace":
+		return b.unsubRace(ws)
+	case "hsrace":
+		return b.hsRace(ws)
 	case "close":
 		id := atoi(ws[1])
 		c, ok := b.clients[id]
@@ -698,6 +737,13 @@ func (b *brokerCore) handle(ws []string) string {
 	case "srvsub":
 		err := b.svr.Subscribe(string(unhex(ws[2])), byte(atoi(ws[3])), b.cb(atoi(ws[1])))
 		return b.collect(-1, err != nil, nil)
+	case "srvsubrepub":
+		// srvsubrepub <cb> <filter> <qos> <target>
+		b.cbmu.Lock()
+		b.repub[atoi(ws[1])] = unhex(ws[4])
+		b.cbmu.Unlock()
+		err := b.svr.Subscribe(string(unhex(ws[2])), byte(atoi(ws[3])), b.cb(atoi(ws[1])))
+		return b.collect(-1, err != nil, nil)
 	case "srvunsub":
 		err := b.svr.Unsubscribe(string(unhex(ws[2])), b.cb(atoi(ws[1])))
 		return b.collect(-1, err != nil, nil)
@@ -705,6 +751,24 @@ func (b *brokerCore) handle(ws []string) string {
 	return "bad-op"
 }
 
+// connectFieldsBytes encodes the CONNECT described by the twelve fields of a `first <c> connect …`
+// line: protocol name, level, reserved flag, CleanSession, will, will QoS / will RETAIN bits without
+// a will, client identifier, user name, password, keep-alive, "authentication succeeds" (0: the user
+// name is replaced by "deny", which the harness's authenticator refuses).
+func connectFieldsBytes(f []string) []byte {
+	c := wConnect{protoName: unhex(f[0]), version: atoi(f[1]), reserved: f[2] == "1", clean: f[3] == "1",
+		willQosNoWill: atoi(f[5]), willRetainNoWill: f[6] == "1", clientID: unhex(f[7]),
+		user: parseOptBytes(f[8]), pass: parseOptBytes(f[9]), keepAlive: atoi(f[10])}
+	if f[4] != "~" {
+		w := strings.Split(f[4], ":")
+		c.will = &wWill{topic: unhex(w[0]), payload: unhex(w[1]), qos: atoi(w[2]), retain: w[3] == "1"}
+	}
+	if f[11] != "1" {
+		u := []byte("deny")
+		c.user = &u
+	}
+	return c.encode()
+}
 
 // clientPacketBytes encodes a client-to-server packet given in the op-line grammar of `pkt`.
 func clientPacketBytes(ws []string) []byte {
@@ -834,6 +898,11 @@ func (b *brokerCore) rawWriteWhile(c *rawClient, data []byte, groups map[int][]s
 // closes its end when it has sent everything (after reading the answer to a complete first packet).
 func (b *brokerCore) rawFirst(id int, data []byte, closes bool) string {
 	b.rawConn, b.keepConnack = id, true
+	return b.render(b.rawFirstGroups(id, data, closes), false)
+}
+
+// rawFirstGroups: the observations of rawFirst, per connection, not yet rendered.
+func (b *brokerCore) rawFirstGroups(id int, data []byte, closes bool) map[int][]string {
 	n, _, tail := scanFrames(data, 0)
 	complete := false
 	if n > 0 {
@@ -850,7 +919,7 @@ func (b *brokerCore) rawFirst(id int, data []byte, closes bool) string {
 	b.clients[id] = c
 	served := make(chan struct{})
 	go func() { b.svr.VerifServe(sv); close(served) }()
-	refused := func(items []string, ok bool) string {
+	refused := func(items []string, ok bool) map[int][]string {
 		if !ok {
 			items = append(items, "TIMEOUT")
 			c.conn.Close()
@@ -867,7 +936,9 @@ func (b *brokerCore) rawFirst(id int, data []byte, closes bool) string {
 		stoppedMu.Lock()
 		delete(stoppedChans, sv)
 		stoppedMu.Unlock()
-		return b.collect(-1, false, map[int][]string{id: items})
+		groups := map[int][]string{id: items}
+		b.collectInto(groups, -1)
+		return groups
 	}
 	if !complete {
 		if len(data) > 0 {
@@ -902,7 +973,7 @@ func (b *brokerCore) rawFirst(id int, data []byte, closes bool) string {
 		c.waitUntil(func() bool { return c.eof }, brokerWait)
 		b.collectInto(groups, id)
 	}
-	return b.render(groups, false)
+	return groups
 }
 
 // firstFrameLen: length of the first complete frame of data (which scanFrames found to exist).
@@ -955,6 +1026,122 @@ func (b *brokerCore) race(ws []string) string {
 		b.collectInto(groups, a.id)
 	} else {
 		b.rawWriteWhile(a, unhex(ws[2]), groups, sendP)
+	}
+	return b.render(groups, false)
+}
+
+// unsubRace: `unsubrace <a> <p> <pktid> <f1,f2,…,fn> <topic> <payload>` - connection a sends ONE
+// UNSUBSCRIBE for all the filters (which it holds: the generator has it subscribe them first); the
+// moment a's client has RECEIVED the UNSUBACK - no barrier in between - connection p publishes
+// (QoS 0) on a topic that matches the LAST filter of the list.  "From that acknowledgement on" the
+// filters no longer take effect (C07): a must not get the message.  A broker that acknowledges
+// before it has removed the filters is still walking the list when the PUBLISH arrives (the window
+// grows with the length of the list).  Observed like two events on one line: p's barrier first (its
+// PUBLISH has then been fanned out), then a's, then everybody else's.
+func (b *brokerCore) unsubRace(ws []string) string {
+	if len(ws) != 7 {
+		return "bad-op"
+	}
+	a, okA := b.clients[atoi(ws[1])]
+	p, okP := b.clients[atoi(ws[2])]
+	if !okA || !okP || a == p || a.dead || p.dead || !a.accepted || !p.accepted || p.mid() || a.mid() {
+		return "-"
+	}
+	var ts [][]byte
+	for _, e := range strings.Split(ws[4], ",") {
+		ts = append(ts, unhex(e))
+	}
+	want := fmt.Sprintf("UNSUBACK %d", atoi(ws[3]))
+	pub := wPub{qos: 0, topic: unhex(ws[5]), payload: unhex(ws[6])}.encode()
+	a.write(wUnsubscribe(atoi(ws[3]), ts))
+	a.waitUntil(func() bool {
+		for _, it := range a.items {
+			if it == want {
+				return true
+			}
+		}
+		return a.eof
+	}, brokerWait)
+	p.write(pub)
+	b.barrier(p)
+	return b.collect(a.id, false, nil)
+}
+
+// hsRace: `hsrace <a> connect <the twelve CONNECT fields, user name "slow…"> ; <b> <hex>` - two
+// handshakes that overlap.  Connection a's CONNECT is written and the harness waits until the broker
+// is inside Authenticate for it (the authenticator holds every user "slow…" there); then the first
+// packet of connection b is written and b is observed to the end (CONNACK, close, barriers if it was
+// accepted); only then a is released and observed.  Whatever b sent - a CONNECT that is refused, a
+// malformed one, an accepted one - must have no effect on what a is connected as (C11, C10): the
+// events are b's first packet, then a's, one output line.
+func (b *brokerCore) hsRace(ws []string) string {
+	if len(ws) != 18 || ws[2] != "connect" || ws[15] != ";" {
+		return "bad-op"
+	}
+	aid, bid, data := atoi(ws[1]), atoi(ws[16]), unhex(ws[17])
+	g := &slowGate{entered: make(chan struct{}, 1), release: make(chan struct{})}
+	setGate(g)
+	released := false
+	release := func() {
+		if !released {
+			released = true
+			close(g.release)
+			setGate(nil)
+		}
+	}
+	defer release()
+	cl, sv := net.Pipe()
+	ca := newRawClient(aid, cl)
+	ca.stopped = make(chan struct{})
+	stoppedMu.Lock()
+	stoppedChans[sv] = ca.stopped
+	stoppedMu.Unlock()
+	b.clients[aid] = ca
+	go b.svr.VerifServe(sv)
+	ca.write(connectFieldsBytes(ws[3:15]))
+	// until a's Authenticate call has been entered (a CONNECT the decoder refuses never gets there)
+	deadline := time.After(brokerWait)
+wait:
+	for {
+		select {
+		case <-g.entered:
+			break wait
+		case <-deadline:
+			break wait
+		case <-time.After(2 * time.Millisecond):
+			ca.mu.Lock()
+			gone := ca.eof
+			ca.mu.Unlock()
+			if gone {
+				break wait
+			}
+		}
+	}
+	b.rawConn, b.keepConnack = bid, true
+	groups := b.rawFirstGroups(bid, data, false)
+	release()
+	ca.waitUntil(func() bool { return len(ca.items) > 0 || ca.eof }, brokerWait)
+	ca.mu.Lock()
+	if len(ca.items) > 0 && strings.HasPrefix(ca.items[0], "CONNACK") && strings.HasSuffix(ca.items[0], " 0") {
+		ca.accepted = true
+	}
+	ca.mu.Unlock()
+	if !ca.accepted {
+		ok := ca.waitUntil(func() bool { return ca.eof }, brokerWait)
+		items := ca.take()
+		if !ok {
+			items = append(items, "TIMEOUT")
+			ca.conn.Close()
+		}
+		items = append(items, "CLOSED")
+		ca.dead = true
+		stoppedMu.Lock()
+		delete(stoppedChans, sv)
+		stoppedMu.Unlock()
+		groups[aid] = append(groups[aid], items...)
+		b.collectInto(groups, -1)
+	} else {
+		b.collectInto(groups, aid)
 	}
 	return b.render(groups, false)
 }
